@@ -3645,6 +3645,11 @@ impl<'a, R: FileManager> FrontendCtx<'a, R> {
                         };
                         items = Some(ann.into());
                     } else {
+                        if items.is_some() {
+                            // [A, ...B[], C]: the members after the rest element would be moved in
+                            // front of it, which is another type
+                            return self.error(&anchor, DiagnosticInfoMessage::TupleRestMustBeLast);
+                        }
                         let ty_schema = self.extract_type(&it.ty, file.clone())?;
                         prefix_items.push(ty_schema);
                     }
